@@ -132,4 +132,121 @@ theorem sample_usize_translated (d : UniformInt) (hr : d.range < 2 ^ 64) (zone v
   · rfl
   · exact iterBV_model IntTy.usize (by decide) d hr zone v hz hv
 
+/-! ### the constructors `try_new` / `try_new_inclusive`, as translated
+
+`some (base, range)` = `Ok(UniformInt { base, range })`, `none` = `Err(UniformError::EmptyRange)`; the ordering of `low` and `high` is the
+type's own (signed types compare as two's-complement values).  The model's `tryNew` - whose results the exactness theorems of C04 start
+from - is this, for every pair of bounds of every type. -/
+
+/-- the model's result on the translated side -/
+def liftC {w : Nat} : Option (BitVec w × BitVec w) → Except UniformError UniformInt
+  | none => .error .EmptyRange
+  | some (b, r) => .ok ⟨b.toNat, r.toNat⟩
+
+/-- the shape every instantiation of the two constructors has (`signed`: the ordering used, `incl`: `+ 1`) -/
+def ctorBV {w : Nat} (signed incl : Bool) (low high : BitVec w) : Option (BitVec w × BitVec w) :=
+  if (if signed then (if incl then BitVec.slt high low else BitVec.sle high low) else (if incl then decide (low > high) else decide (low ≥ high)))
+  then none else some (low, if incl then (high - low) + BitVec.ofNat w 1 else high - low)
+
+theorem toInt_model (t : IntTy) {w : Nat} (hw : t.bits = w) (x : BitVec w) :
+    t.toInt x.toNat = if t.signed then x.toInt else (x.toNat : Int) := by
+  unfold IntTy.toInt IntTy.M
+  rw [hw, BitVec.toInt_eq_toNat_cond]
+
+theorem ctorBV_model (t : IntTy) {w : Nat} (hw : t.bits = w) (hw0 : 0 < w) (incl : Bool) (lo hi : BitVec w) :
+    liftC (ctorBV t.signed incl lo hi) = UniformInt.tryNew t lo.toNat hi.toNat incl := by
+  have hM : t.M = 2 ^ w := by unfold IntTy.M; rw [hw]
+  have hlo := lo.isLt
+  have hhi := hi.isLt
+  have h1 : (1 : Nat) < 2 ^ w := Nat.one_lt_two_pow (by omega)
+  have hsub : (hi - lo).toNat = wsub (2 ^ w) hi.toNat lo.toNat := by
+    unfold wsub; rw [BitVec.toNat_sub]; congr 1; omega
+  have hadd : ((hi - lo) + BitVec.ofNat w 1).toNat = wadd (2 ^ w) (wsub (2 ^ w) hi.toNat lo.toNat) 1 := by
+    unfold wadd; rw [BitVec.toNat_add, hsub, BitVec.toNat_ofNat, Nat.mod_eq_of_lt h1]
+  unfold UniformInt.tryNew ctorBV
+  rw [toInt_model t hw lo, toInt_model t hw hi, hM]
+  cases hs : t.signed
+  · cases incl
+    · simp only [Bool.false_eq_true, if_false]
+      by_cases h : lo ≥ hi
+      · have h' : (lo.toNat : Int) ≥ (hi.toNat : Int) := by rw [ge_iff_le, BitVec.le_def] at h; exact_mod_cast h
+        simp only [h, decide_true, if_true, h', liftC]
+      · have h' : ¬ ((lo.toNat : Int) ≥ (hi.toNat : Int)) := by rw [ge_iff_le, BitVec.le_def] at h; exact_mod_cast h
+        simp only [h, decide_false, Bool.false_eq_true, if_false, h', liftC, hsub]
+    · simp only [Bool.false_eq_true, if_false, if_true]
+      by_cases h : lo > hi
+      · have h' : (lo.toNat : Int) > (hi.toNat : Int) := by rw [gt_iff_lt, BitVec.lt_def] at h; exact_mod_cast h
+        simp only [h, decide_true, if_true, h', liftC]
+      · have h' : ¬ ((lo.toNat : Int) > (hi.toNat : Int)) := by rw [gt_iff_lt, BitVec.lt_def] at h; exact_mod_cast h
+        simp only [h, decide_false, Bool.false_eq_true, if_false, h', liftC, hadd]
+  · cases incl
+    · simp only [Bool.false_eq_true, if_false, if_true, BitVec.sle]
+      by_cases h : hi.toInt ≤ lo.toInt
+      · simp only [h, decide_true, if_true, ge_iff_le, liftC]
+      · simp only [h, decide_false, Bool.false_eq_true, if_false, ge_iff_le, liftC, hsub]
+    · simp only [Bool.false_eq_true, if_false, if_true, BitVec.slt]
+      by_cases h : hi.toInt < lo.toInt
+      · simp only [h, decide_true, if_true, gt_iff_lt, liftC]
+      · simp only [h, decide_false, Bool.false_eq_true, if_false, gt_iff_lt, liftC, hadd]
+
+/-- `UniformInt<i8>::try_new` / `try_new_inclusive` are the model's `tryNew`, for every pair of bounds -/
+theorem ctor_i8_translated (lo hi : BitVec 8) :
+    liftC (Scalar.uniform_int.try_new_i8 lo hi) = UniformInt.tryNew IntTy.i8 lo.toNat hi.toNat false ∧
+    liftC (Scalar.uniform_int.try_new_inclusive_i8 lo hi) = UniformInt.tryNew IntTy.i8 lo.toNat hi.toNat true :=
+  ⟨ctorBV_model IntTy.i8 rfl (by decide) false lo hi, ctorBV_model IntTy.i8 rfl (by decide) true lo hi⟩
+
+/-- `UniformInt<u8>::try_new` / `try_new_inclusive` are the model's `tryNew`, for every pair of bounds -/
+theorem ctor_u8_translated (lo hi : BitVec 8) :
+    liftC (Scalar.uniform_int.try_new_u8 lo hi) = UniformInt.tryNew IntTy.u8 lo.toNat hi.toNat false ∧
+    liftC (Scalar.uniform_int.try_new_inclusive_u8 lo hi) = UniformInt.tryNew IntTy.u8 lo.toNat hi.toNat true :=
+  ⟨ctorBV_model IntTy.u8 rfl (by decide) false lo hi, ctorBV_model IntTy.u8 rfl (by decide) true lo hi⟩
+
+/-- `UniformInt<i16>::try_new` / `try_new_inclusive` are the model's `tryNew`, for every pair of bounds -/
+theorem ctor_i16_translated (lo hi : BitVec 16) :
+    liftC (Scalar.uniform_int.try_new_i16 lo hi) = UniformInt.tryNew IntTy.i16 lo.toNat hi.toNat false ∧
+    liftC (Scalar.uniform_int.try_new_inclusive_i16 lo hi) = UniformInt.tryNew IntTy.i16 lo.toNat hi.toNat true :=
+  ⟨ctorBV_model IntTy.i16 rfl (by decide) false lo hi, ctorBV_model IntTy.i16 rfl (by decide) true lo hi⟩
+
+/-- `UniformInt<u16>::try_new` / `try_new_inclusive` are the model's `tryNew`, for every pair of bounds -/
+theorem ctor_u16_translated (lo hi : BitVec 16) :
+    liftC (Scalar.uniform_int.try_new_u16 lo hi) = UniformInt.tryNew IntTy.u16 lo.toNat hi.toNat false ∧
+    liftC (Scalar.uniform_int.try_new_inclusive_u16 lo hi) = UniformInt.tryNew IntTy.u16 lo.toNat hi.toNat true :=
+  ⟨ctorBV_model IntTy.u16 rfl (by decide) false lo hi, ctorBV_model IntTy.u16 rfl (by decide) true lo hi⟩
+
+/-- `UniformInt<i32>::try_new` / `try_new_inclusive` are the model's `tryNew`, for every pair of bounds -/
+theorem ctor_i32_translated (lo hi : BitVec 32) :
+    liftC (Scalar.uniform_int.try_new_i32 lo hi) = UniformInt.tryNew IntTy.i32 lo.toNat hi.toNat false ∧
+    liftC (Scalar.uniform_int.try_new_inclusive_i32 lo hi) = UniformInt.tryNew IntTy.i32 lo.toNat hi.toNat true :=
+  ⟨ctorBV_model IntTy.i32 rfl (by decide) false lo hi, ctorBV_model IntTy.i32 rfl (by decide) true lo hi⟩
+
+/-- `UniformInt<u32>::try_new` / `try_new_inclusive` are the model's `tryNew`, for every pair of bounds -/
+theorem ctor_u32_translated (lo hi : BitVec 32) :
+    liftC (Scalar.uniform_int.try_new_u32 lo hi) = UniformInt.tryNew IntTy.u32 lo.toNat hi.toNat false ∧
+    liftC (Scalar.uniform_int.try_new_inclusive_u32 lo hi) = UniformInt.tryNew IntTy.u32 lo.toNat hi.toNat true :=
+  ⟨ctorBV_model IntTy.u32 rfl (by decide) false lo hi, ctorBV_model IntTy.u32 rfl (by decide) true lo hi⟩
+
+/-- `UniformInt<i64>::try_new` / `try_new_inclusive` are the model's `tryNew`, for every pair of bounds -/
+theorem ctor_i64_translated (lo hi : BitVec 64) :
+    liftC (Scalar.uniform_int.try_new_i64 lo hi) = UniformInt.tryNew IntTy.i64 lo.toNat hi.toNat false ∧
+    liftC (Scalar.uniform_int.try_new_inclusive_i64 lo hi) = UniformInt.tryNew IntTy.i64 lo.toNat hi.toNat true :=
+  ⟨ctorBV_model IntTy.i64 rfl (by decide) false lo hi, ctorBV_model IntTy.i64 rfl (by decide) true lo hi⟩
+
+/-- `UniformInt<u64>::try_new` / `try_new_inclusive` are the model's `tryNew`, for every pair of bounds -/
+theorem ctor_u64_translated (lo hi : BitVec 64) :
+    liftC (Scalar.uniform_int.try_new_u64 lo hi) = UniformInt.tryNew IntTy.u64 lo.toNat hi.toNat false ∧
+    liftC (Scalar.uniform_int.try_new_inclusive_u64 lo hi) = UniformInt.tryNew IntTy.u64 lo.toNat hi.toNat true :=
+  ⟨ctorBV_model IntTy.u64 rfl (by decide) false lo hi, ctorBV_model IntTy.u64 rfl (by decide) true lo hi⟩
+
+/-- `UniformInt<isize>::try_new` / `try_new_inclusive` are the model's `tryNew`, for every pair of bounds -/
+theorem ctor_isize_translated (lo hi : BitVec 64) :
+    liftC (Scalar.uniform_int.try_new_isize lo hi) = UniformInt.tryNew IntTy.isize lo.toNat hi.toNat false ∧
+    liftC (Scalar.uniform_int.try_new_inclusive_isize lo hi) = UniformInt.tryNew IntTy.isize lo.toNat hi.toNat true :=
+  ⟨ctorBV_model IntTy.isize rfl (by decide) false lo hi, ctorBV_model IntTy.isize rfl (by decide) true lo hi⟩
+
+/-- `UniformInt<usize>::try_new` / `try_new_inclusive` are the model's `tryNew`, for every pair of bounds -/
+theorem ctor_usize_translated (lo hi : BitVec 64) :
+    liftC (Scalar.uniform_int.try_new_usize lo hi) = UniformInt.tryNew IntTy.usize lo.toNat hi.toNat false ∧
+    liftC (Scalar.uniform_int.try_new_inclusive_usize lo hi) = UniformInt.tryNew IntTy.usize lo.toNat hi.toNat true :=
+  ⟨ctorBV_model IntTy.usize rfl (by decide) false lo hi, ctorBV_model IntTy.usize rfl (by decide) true lo hi⟩
+
 end Urandom.C04
